@@ -222,7 +222,12 @@ def catalogue(only=None, tests=False, log=print):
 def external_patch(patch, props, cases=None, tier="quick", log=print):
     base = make_copy("ext")
     try:
-        p = subprocess.run(["patch", "-p1", "-s", "-i", os.path.abspath(patch)], cwd=base, capture_output=True, text=True, check=False)
+        # the scratch copy holds src/ only: hunks for docs or tests are left out
+        p = subprocess.run(["git", "apply", "--include=src/*", "--whitespace=nowarn", os.path.abspath(patch)], cwd=base, capture_output=True, text=True, check=False)
+        if p.returncode != 0:
+            p = subprocess.run(["patch", "-p1", "-s", "-f", "-i", os.path.abspath(patch)], cwd=base, capture_output=True, text=True, check=False)
+            if p.returncode != 0 and not os.path.exists(os.path.join(base, "src")):
+                pass
         if p.returncode != 0:
             raise runner.HarnessError("patch does not apply: %s %s" % (p.stdout, p.stderr))
         out = {}
